@@ -45,8 +45,8 @@ type Loaded struct {
 
 // Overlay spec: in-memory source variants used by the self-test (never touches the disk).
 type overlaySpec struct {
-	Name    string `json:"name"`
-	Expect  []struct {
+	Name   string `json:"name"`
+	Expect []struct {
 		Property string `json:"property"`
 		Rule     string `json:"rule"`
 	} `json:"expect"`
@@ -107,6 +107,10 @@ func readOverlay(path, repo string) (map[string][]byte, *overlaySpec, error) {
 		if !ok {
 			src, err = os.ReadFile(full)
 			if err != nil {
+				if os.IsNotExist(err) && e.Old == "" {
+					ov[full] = []byte(e.New) // a file the variant adds
+					continue
+				}
 				return nil, &spec, fmt.Errorf("overlay %s: %w", spec.Name, err)
 			}
 		}
